@@ -108,6 +108,19 @@ func jsonTexts() []string {
 			add(v + s)
 		}
 	}
+	// documents whose keys are fq's ext-key names, values of every type, top level and nested
+	nExt := 0
+	for _, k := range extKeys {
+		for _, v := range []string{`1`, `null`, `true`, `"s"`, `{"error":"x"}`, `[]`, `{}`, `1.5`, `{"` + k + `":[{"` + k + `":null}]}`} {
+			add(`{"` + k + `":` + v + `}`)
+			nExt++
+		}
+		add(`[{"` + k + `":1},{"a":{"` + k + `":"x"}}]`)
+		add(`{"a":1,"` + k + `":{"error":"x"},"_format":"json"}`)
+		add(`{"` + k + `":1}]`)
+		nExt += 3
+	}
+	jsonTextExtDocs = nExt
 	// every strict prefix
 	for _, v := range values {
 		for i := 0; i < len(v); i++ {
@@ -146,8 +159,11 @@ func jsonTexts() []string {
 	return ts
 }
 
+var jsonTextExtDocs int
+
 func emitJSONText(o *hlib.Out, cfg hlib.Config) {
 	texts := jsonTexts()
+	o.Stat("extkey_docs", jsonTextExtDocs)
 	type job struct {
 		text, ch string
 	}
